@@ -101,6 +101,28 @@ static inline int prop_str(const unsigned char* in, unsigned char* out) {
 	for (size_t i = 0; i < n; i++) if (o.s[d.hdr + i] != (unsigned char)payload[i]) return 0;
 	return 1;
 }
+// strings around the str8/str16 threshold (255/256): symbolic length 0..300, constant payload; header + total size + memory == stream
+VH_EXPORT int vp_h06c_strlen(const unsigned char* in, unsigned char* out) {
+	static constexpr size_t BIG = 320;
+	size_t n = vh::rd<uint16_t>(in) % 301;
+	static char payload[304]; for (size_t i = 0; i < 304; i++) payload[i] = 'x';
+	std::string str; str.reserve(BIG);
+	static char sbuf[BIG];
+	vh::MemOStream os(sbuf, BIG);
+	CMsgPackStringWriter ws(str); CMsgPackStreamWriter wt(os);
+	verif_nogrow(&str);
+	verif_symbolic_phase();
+	int rcs = outcome([&] { ws.WriteValue(std::string_view(payload, n)); });
+	int rct = outcome([&] { wt.WriteValue(std::string_view(payload, n)); });
+	out[0] = (unsigned char)rcs; out[1] = (unsigned char)rct; vh::wr(out + 2, (uint16_t)str.size()); vh::wr(out + 4, (uint16_t)os.written());
+	if (rcs != vh::OK || rct != vh::OK || !os.good()) return 0;
+	size_t hdr = mp::min_len_hdr(mp::Str, n);
+	if (str.size() != hdr + n || os.written() != str.size()) return 0;
+	mp::Obj d = mp::decode(reinterpret_cast<const unsigned char*>(str.data()), str.size());
+	if (!(d.kind == mp::Str && d.len == n && d.hdr == hdr)) return 0;
+	for (size_t i = 0; i < 4; i++) if (i < hdr && (unsigned char)sbuf[i] != (unsigned char)str[i]) return 0;    // identical headers
+	return 1;
+}
 // ---- H06d timestamp extension: spec layout, most compact form
 static inline CBinTimestamp load_ts(const unsigned char* in) { return CBinTimestamp(vh::rd<int64_t>(in), vh::rd<int32_t>(in + 8)); }
 VH_EXPORT int va_h06d_ts(const unsigned char* in) { CBinTimestamp t = load_ts(in); return t.Nanoseconds >= 0 && t.Nanoseconds <= 999999999; }
@@ -183,6 +205,7 @@ DEF_TS(s, std::chrono::seconds) DEF_TS(min, std::chrono::minutes) DEF_TS(h, std:
 //@ OBL {"name": "h06c_map", "prop": "vp_h06c_map", "in": 8, "out": 16, "unwind": 52, "bounds": "every size_t count", "desc": "BeginMap"}
 //@ OBL {"name": "h06c_bin", "prop": "vp_h06c_bin", "in": 8, "out": 16, "unwind": 52, "bounds": "every size_t count", "desc": "BeginBinary: bin8/16/32"}
 //@ OBL {"name": "h06c_str", "prop": "vp_h06c_str", "in": 8, "out": 16, "unwind": 52, "bounds": "string length 0..40 (fixstr/str8 threshold at 31/32), symbolic first and last byte", "desc": "WriteValue(string_view): header + verbatim payload"}
+//@ OBL {"name": "h06c_strlen", "prop": "vp_h06c_strlen", "in": 8, "out": 16, "unwind": 12, "unwind_models": 310, "unwind_fn": {"^verif_stream_copy$": 310, "vp_h06c_strlen": 310}, "cap_s": 900, "bounds": "string length 0..300 (fixstr / str8 / str16 thresholds at 31/32 and 255/256), constant payload", "desc": "WriteValue(string_view): smallest header, total size, memory and stream output agree"}
 //@ OBL {"name": "h06d_ts", "family": "h06d_ts", "prop": "vp_h06d_ts", "assume": "va_h06d_ts", "known": "vk_h06d_ts", "in": 12, "out": 16, "unwind": 52, "bounds": "every int64 seconds, nanoseconds 0..999999999", "desc": "WriteValue(CBinTimestamp): timestamp 32/64/96 per spec, most compact"}
 //@ OBL {"name":"h06d_ts_f5","only_if_known":"F5","prop":"vp_h06d_ts_f5","assume":"va_h06d_ts_f5","in":12,"out":16,"unwind":52,"bounds":"every timestamp whose seconds need the 96-bit form","desc":"known finding F5 pinned down: ext8(12) type -1 with fields in the order seconds, nanoseconds - and nothing else"}
 //@ OBL {"name": "h06d_tp_ns", "prop": "vp_h06d_tp_ns", "in": 8, "out": 16, "unwind": 4, "bounds": "|count| < 2^24 (division-by-constant kernel: the full 64-bit range does not close within the cap on any back end); thorough: 2^31", "desc": "To(time_point<ns>, CBinTimestamp&): same instant, 0 <= ns <= 999999999", "cassume": ["RD64(in,0) < (1LL<<24) && RD64(in,0) > -(1LL<<24)"], "backends": ["kissat", "default"]}
